@@ -27,6 +27,8 @@ def write(run, spec, ded, bnd):
         "undecided": ded["undecided"],
         "out_of_subset": ded["out_of_subset"],
         "failed_obligations": ded["failed"],
+        "native_contract_evaluations": ded.get("monitor_evaluations", {}),
+        "lemmas": ded.get("lemmas", []),
         "covers_sat": ded["covers_sat"],
         "dead_paths": ded["dead_paths"],
         "bounded": {"label": "bounded stand-in: never counted in `discharged`", "checks": bnd["checks"]},
